@@ -114,7 +114,7 @@ Loops, other forms of try, with, yield, comprehension, other string operations, 
 reads that are not bound, calls that are not listed: rejected.
 """
 from __future__ import annotations
-import ast, os, re
+import ast, json, os, re
 
 NAT, INT, RAT, BOOL, BYTES, UNIT = 'Nat', 'Int', 'Rat', 'Bool', 'Bytes', 'Unit'
 STR, DICT = 'Str', 'Dict'          # str as code points; dict str -> str as an association list
@@ -1756,26 +1756,59 @@ def doc_comment(site, used_binds):
     return '/-- %s\n%s\n```\n%s\n```\n-/\n' % (site.where, '\n'.join(extra), src)
 
 
-def generate(repo):
-    """returns (text of Code.lean, problems, {name: Def} of the definitions that were translated)"""
+BASELINE = os.path.join(os.path.dirname(os.path.abspath(__file__)), 'py2lean_baseline.json')
+FALLBACKS = []          # (site, reason) of the last generate(): sites emitted from the baseline instead of being retranslated
+
+
+def _load_baseline():
+    try:
+        with open(BASELINE) as f:
+            return json.load(f)
+    except (OSError, ValueError):
+        return {}
+
+
+def _ty_from_json(t):
+    return tuple(_ty_from_json(x) for x in t) if isinstance(t, list) else t
+
+
+def generate(repo, baseline=None, fallback_sites=()):
+    """returns (text of Code.lean, problems, {name: Def} of the definitions that were translated).
+       A site that has left the accepted subset (the source was restructured) and is named in `fallback_sites` is NOT retranslated:
+       the definition last translated from the source (harness/py2lean_baseline.json, written by harness/mkbaseline.py on a tree
+       where every site translates) is emitted again, and the site is listed in FALLBACKS - the caller must then tie it to the
+       current source differentially (gencheck evaluates that definition against the current Python)."""
     problems, defs, chunks, disp = [], {}, [], []
+    del FALLBACKS[:]
+    baseline = _load_baseline() if baseline is None else baseline
     try:
         sites = build_sites(repo)
     except (Unsupported, OSError, SyntaxError) as e:
         return HEADER + 'end Lomond.Gen.Code\n', ['py2lean: %s' % e], {}
+    record = {}
     for name, thunk in sites:
         try:
             s = thunk()
             tr = Translator(s, defs)
             text, d = tr.translate()
             defs[name] = d
-            chunks.append(doc_comment(s, tr.used_binds) + text)
+            chunk = doc_comment(s, tr.used_binds) + text
+            chunks.append(chunk)
             args = ['a%d' % i for i in range(len(d.params))]
-            disp.append('  | %s, [%s] => Py.render (%s%s)' % (
+            dline = '  | %s, [%s] => Py.render (%s%s)' % (
                 lean_str(name), ', '.join(args), name,
-                ''.join(' (Py.parse %s : %s)' % (a, lean_ty(t)) for a, (_, t) in zip(args, d.params))))
+                ''.join(' (Py.parse %s : %s)' % (a, lean_ty(t)) for a, (_, t) in zip(args, d.params)))
+            disp.append(dline)
+            record[name] = dict(chunk=chunk, disp=dline, params=d.params, ret=d.ret, raises=d.raises, defaults=d.defaults)
         except Unsupported as e:
             msg = str(e).split('\n')[0][:200]
+            b = baseline.get(name)
+            if b is not None and name in fallback_sites:
+                FALLBACKS.append((name, msg))
+                chunks.append('/- NOT RETRANSLATED (%s): the definition below is the one last translated from the source; it is tied to the\n   current source by the differential test harness/gencheck.py on this run -/\n' % msg.replace('-/', '- /') + b['chunk'])
+                disp.append(b['disp'])
+                defs[name] = Def(name, [(n, _ty_from_json(t)) for n, t in b['params']], _ty_from_json(b['ret']), b['raises'], b['defaults'])
+                continue
             problems.append('py2lean %s: outside the translated subset: %s' % (name, msg))
             chunks.append('/-- NOT TRANSLATED: %s -/\ndef %s : Py.Untranslated := ⟨%s⟩\n' % (
                 msg.replace('-/', '- /'), name, lean_str(msg)))
@@ -1783,6 +1816,7 @@ def generate(repo):
     out += ('\n/-- `gen <name> <args…>` of the driver (differential test of the translator) -/\n'
             'def dispatch (name : String) (args : List String) : String :=\n  match name, args with\n'
             + '\n'.join(disp) + '\n  | _, _ => "untranslated"\n\nend Lomond.Gen.Code\n')
+    generate.record = record
     return out, problems, defs
 
 
